@@ -2,7 +2,7 @@ ENGINES = [
     {"name": "csym", "path": "vt/csym.py", "serves_properties": ["C01", "C02", "C03", "C10", "C13", "C14", "C17", "C18"],
      "kind_free_text": "symbolic interpreter of traits/ctraits.c over clang's JSON AST (regenerated from the current source on every run), "
                        "CPython API contracts in vt/capi.py, shared path condition with symx; memory-safety assertions on every path"},
-    {"name": "symx", "path": "vt/symx.py", "serves_properties": ["C01", "C03", "C04", "C05", "C06", "C07", "C13", "C15", "C17", "C20"],
+    {"name": "symx", "path": "vt/symx.py", "serves_properties": ["C01", "C03", "C04", "C05", "C06", "C07", "C09", "C13", "C15", "C17", "C20"],
      "kind_free_text": "symbolic execution of the real Python code on z3-backed proxies (DFS over decision prefixes by re-execution), "
                        "environment models for built-ins (vt/envmodels.py), concrete replay of every counterexample and one witness per path"},
 ]
@@ -174,4 +174,17 @@ CHECKS["C10"] = dict(
     note="All objects are heap objects: the solver contributes choice feasibility only (exhaustive bounded enumeration, labelled so in the "
          "evidence); what the family adds is the interpreted C path with reference-count and memory-safety assertions. Outside: defaults of "
          "Array/Date traits, threads.")
+CHECKS["C09"] = dict(
+    text="(a) Count algebra, solver-decided for unbounded counts: the real TraitEventNotifier.add_to/remove_from/equals run on a stub "
+         "observable with n<=3 other entries (targets equal by value but distinct), the equal entry at a symbolic position (or absent) "
+         "with _ref_count = c, an unbounded z3 Int >= 1: add S(c)->S(c+1) / append with count 1, remove S(c+1)->S(c), S(1)->absent, "
+         "absent->NotifierNotFound with nothing changed, other entries and order untouched; by induction: n registrations then n removals "
+         "restore the state for every n, the (n+1)-th raises. (b) Bounded histories (k=2/3) on real graphs: observe/remove of 2 handlers x "
+         "5 expressions interleaved with graph mutations and 5 failing registrations at different walk positions: call counts, "
+         "NotifierNotFound, populations of every notifier list back to zero, failing registration leaves nothing; weak references "
+         "(handler owner, detached leaf, root collected).",
+    design_ref="DESIGN.md section 4 C09", technique="symbolic execution of the real Python code with z3 (symx) for the count algebra; bounded exploration for histories",
+    note="(a) assumes the representation invariant (at most one equal entry per list, counts >= 1). (b): solver contributes choice "
+         "feasibility only. Outside: dispatch='ui'/'new', ObserverChangeNotifier counting (it is not counted by design), gc at every "
+         "point of a history (three fixed points only).")
 NOT_APPLICABLE = {p: NOT_BUILT for p in ["C%02d" % i for i in range(1, 21)]}
